@@ -16,6 +16,9 @@ THEOREMS = [
     'Pfst.C20.set_invalid_identity', 'Pfst.C20.set_error_identity', 'Pfst.C20.set_invalid_any_position',
     'Pfst.C20.exec_frame', 'Pfst.C20.block_restores', 'Pfst.C20.block_restores_all', 'Pfst.C20.exec_clean',
     'Pfst.C20.percall_no_leak', 'Pfst.C20.percall_transparent', 'Pfst.C20.eff_merged',
+    'Pfst.C20.percall_present_decides', 'Pfst.C20.percall_absent_consults', 'Pfst.C20.eff_present_shields',
+    'Pfst.C20.eff_all_present_independent', 'Pfst.C20.effSetNorm_all_present_independent',
+    'Pfst.C20.effSetNorm_present_shields', 'Pfst.C20.eff_absent_consults',
     'Pfst.C20.thread_frame', 'Pfst.C20.thread_local_step', 'Pfst.C20.machine_exec',
     'Pfst.C20.interleave', 'Pfst.C20.interleave_exec', 'Pfst.C20.stepVis_is_schedule',
     'Pfst.C20.real_tables_wf', 'Pfst.C20.real_set_invalid', 'Pfst.C20.real_block_restores_all',
@@ -32,7 +35,12 @@ RULE = ('(a) check_options on random 1-4 key mappings over the probe domain (23 
         'alone in a fresh thread, and with the big-step model; (d) direct evaluation of the property on every run '
         '(state unchanged by a rejected set/enter, block keys restored on normal and exceptional exit, no change by '
         'get/call, own options stable between own steps, registry empty after calls) plus free-running threads with a '
-        '1 microsecond switch interval vs solo results; (e) option OBJECTS: a program owns one object per mutable option '
+        '1 microsecond switch interval vs solo results; (f) three-level lookup: for the options read by each '
+        '_get_opt_eff_* resolver EVERY (block default x per-call mapping: each key absent or present with each accepted '
+        'value incl. None) is run as with options(D): call(O) on operations the resolver decides (emptying a Set, '
+        'Delete.targets, an If body, a MatchOr; paren-sensitive copies/puts) against the model, and directly: a call that '
+        'passes a key must give the same resolver answers and edit text under any default for that key as under library '
+        'defaults; (e) option OBJECTS: a program owns one object per mutable option '
         'value and reuses it for every step; after every step each is compared by value with the pristine probe value, '
         'get_options() is compared by value (type+repr coding) before/after every non-setting step, identical calls '
         '(same edit, per-call codes, defaults) must give identical text; edits consuming `op`/`op_side` (Compare slices, '
@@ -405,6 +413,124 @@ def _compare_threads(ctx, name, tcases, outs):
                 + json.dumps(_FIRST.get(name), default=str)[:1500])
 
 
+# ---- the effective-option resolvers: three-level lookup (key present in the call / thread-block default / library) ---
+
+def _groups():
+    """(resolver functions, option names they read, edits whose observable behaviour they decide)"""
+    return [
+        (['_get_opt_eff_pars_arglike'], ['pars_arglike', 'pars'], R.PARS_IDS),
+        (['_get_opt_eff_norm_self', '_get_opt_eff_set_norm_self'], ['norm_self', 'norm', 'set_norm'], R.NORM_IDS),
+        (['_get_opt_eff_norm_get', '_get_opt_eff_set_norm_get'], ['norm_get', 'norm', 'set_norm'], R.NORM_IDS),
+    ]
+
+
+def _assignments(names):
+    """every mapping over `names`: each name absent or present with each value set_options accepts (None included)"""
+    d = R.dom()
+    acc = {n: vs for n, vs, _ in tables()[False]}
+    out = [[]]
+    for nm in names:
+        if nm not in d.name_code:
+            continue
+        c = d.name_code[nm]
+        vals = [v for v in acc.get(c, []) if c20_domain._is_plain(d.values[v])]
+        out = [kv + ext for kv in out for ext in [[]] + [[[c, v]] for v in vals]]
+    return out
+
+
+def _resolver_programs():
+    """`with options(**D): call(**O)` for EVERY D and O over the options a resolver reads (absent / each value incl.
+    None), every call on an operation the resolver decides; compared with the model step by step like any program"""
+    out = []
+    for _, names, eids in _groups():
+        asg = _assignments(names)
+        for i, D in enumerate(asg):
+            body = [['catch', [['call', O, eids[(i + j) % len(eids)]]]] for j, O in enumerate(asg)]
+            out.append([['block', D, body]])
+    return out
+
+
+def _shield_case(arg):
+    """the property itself, no model: a key PRESENT in the call's options (whatever its value, None included) decides;
+    a thread/block default for that key must not change the outcome.  Oracle: the same call under library defaults."""
+    fns, eids, O, Ds = arg
+    d = R.dom()
+    F = d.FST
+    bad = []
+    n = 0
+    try:
+        R.reset_options()
+        base_r = [repr(getattr(F, fn)(d.dec_kvs(O))) for fn in fns] + [repr(F.get_option(d.names[k], d.dec_kvs(O))) for k, _ in O]
+        base_e = [R.run_edit(e, d.dec_kvs(O), None) for e in eids]
+        for D in Ds:
+            R.reset_options()
+            try:
+                with F.options(**d.dec_kvs(D)):
+                    got_r = [repr(getattr(F, fn)(d.dec_kvs(O))) for fn in fns] + [repr(F.get_option(d.names[k], d.dec_kvs(O))) for k, _ in O]
+                    got_e = [R.run_edit(e, d.dec_kvs(O), None) for e in eids]
+            except Exception as e:
+                bad.append(['harness', repr(e), D, O])
+                continue
+            n += len(got_r) + len(got_e)
+            names = list(fns) + ['get_option(' + d.names[k] + ')' for k, _ in O]
+            for nm, a, b in zip(names, got_r, base_r):
+                if a != b:
+                    bad.append([nm, D, O, a, b])
+            for e, a, b in zip(eids, got_e, base_e):
+                if a != b:
+                    bad.append([R.EDIT_NAMES[e], D, O, a, b])
+        return {'bad': bad, 'n': n}
+    except Exception:
+        import traceback
+        return {'harness_error': traceback.format_exc()[-600:]}
+    finally:
+        R.reset_options()
+
+
+def _shield_sweep(ctx, full):
+    rng = random.Random(ctx.rng.random())
+    d = R.dom()
+    jobs = []
+    for fns, names, eids in _groups():
+        for O in _assignments(names):
+            if not O:
+                continue
+            present = [d.names[k] for k, _ in O]
+            Ds = [D for D in _assignments(present) if D]
+            if not full and len(Ds) > 8:
+                Ds = rng.sample(Ds, 8)
+            jobs.append((fns, eids, O, Ds))
+    # the same for arbitrary options and every fresh-tree edit: defaults for keys the call passes are irrelevant
+    g = R.Gen(rng, tables())
+    for _ in range(300 if not full else 3000):
+        O = [kv for kv in g.kvs('call', 0.0) if kv[0] in g.glob and c20_domain._is_plain(d.values[kv[1]])]
+        if not O:
+            continue
+        Ds = []
+        for _ in range(3):
+            sub = rng.sample(O, rng.randint(1, len(O)))
+            Ds.append([[k, rng.choice([v for v in g.accG[k] if c20_domain._is_plain(d.values[v])])] for k, _ in sub])
+        jobs.append(([], rng.sample(range(R.N_FRESH), 3), O, Ds))
+    outs = pmap(_shield_case, jobs)
+    n = 0
+    for (fns, eids, O, Ds), o in zip(jobs, outs):
+        if 'harness_error' in o:
+            ctx.brk('correspondence', 'C20.sweep.shield', o['harness_error'])
+            break
+        n += o['n']
+        ctx.count(['shield', O, Ds], True, n=max(1, len(Ds)))
+        for b in o['bad'][:3]:
+            if b[0] == 'harness':
+                ctx.brk('correspondence', 'C20.sweep.shield', str(b))
+                continue
+            what, D, O_, got, alone = b
+            ctx.fail('C20|call|default-overrides-passed-option|' + what,
+                     f'inside `with FST.options{_pretty(D)}` the call {what} with per-call options {_pretty(O_)} gives '
+                     f'{got[:120]!r}; the same call under library defaults gives {alone[:120]!r}: a default for an option '
+                     f'the call passes itself changed the outcome', {'defaults': D, 'call': O_, 'what': what})
+    ctx.notes['shield_comparisons'] = n
+
+
 def correspondence(ctx):
     q = ctx.quick
     # (a)
@@ -416,6 +542,10 @@ def correspondence(ctx):
     progs = _gen_programs(ctx, 2500 if q else 30000)
     outs = pmap(_solo_case, progs)
     _compare_solo(ctx, 'option program on one thread vs Pfst.Options.execL', progs, outs)
+    rprogs = _resolver_programs()
+    routs = pmap(_solo_case, rprogs, chunksize=1)
+    _compare_solo(ctx, 'every (block default x per-call value incl. None) of the _get_opt_eff_* options vs Pfst.Options.execL',
+                  rprogs, routs)
     # (c)
     tcases = _gen_thread_cases(ctx, 240 if q else 3000)
     touts = pmap(_thread_case, tcases, chunksize=1)
@@ -743,6 +873,7 @@ def _direct(ctx, scale):
     rng = random.Random(ctx.rng.random())
     n_doc = _doc_sweep(ctx)
     ctx.notes['doc_domain_checks'] = n_doc
+    _shield_sweep(ctx, full=not q or scale > 1)
     _doc_multi(ctx, rng, int((150 if q else 1500) * scale))
     progs = _focus_programs() + _shape_programs(rng, int((300 if q else 3000) * scale))
     outs = pmap(_shape_case, progs)
@@ -816,6 +947,14 @@ def replay(ctx, data):
             o = R.run_solo(w['prog'])
             for a in o['anomalies']:
                 ctx.fail('replay', a[0] + ': ' + ' ; '.join(_pretty(x) for x in a[1:])[:400], w)
+        elif 'defaults' in w:
+            d = R.dom()
+            what = w['what']
+            eids = [R.EDIT_NAMES.index(what)] if what in R.EDIT_NAMES else []
+            fns = [what] if what.startswith('_get_opt') else []
+            o = _shield_case((fns, eids, w['call'], [w['defaults']]))
+            for b in o.get('bad', []):
+                ctx.fail('replay', f'{b[0]}: defaults {_pretty(b[1])} call {_pretty(b[2])}: {b[3][:100]!r} vs alone {b[4][:100]!r}', w)
         elif 'kvs' in w:
             v = _visibility_case(0)
             if v['bad']:
